@@ -212,6 +212,31 @@ def run(ck):
             ck.violation("binary", "totals-differ", case, repr(wt if fmt == "human" else ""), repr(plain_out[:200]))
         if r["exit"] != ("1" if te else "0"):
             ck.violation("binary", "exit-status", case, "1" if te else "0", r["exit"])
+    # one note per offending field, also when the notes read the same: the source says how many there must be
+    nlines, nmeta = [], []
+    for _ in range(40 if ck.tier == "quick" else 400):
+        k = rng.choice([1, 2, 2, 3, 4])
+        kinds = [rng.choice(["float32", "float32", "float64"]) for _ in range(k)]
+        fields = ", ".join("f%d: %s" % (i, t) for i, t in enumerate(kinds))
+        text = "module M\ncompact struct K { ok: int32, %s }\nstruct S { d: Dictionary<K, bool> }\n" % fields
+        for fmt in ("json", "human"):
+            nlines.append("emit %s - %s:%s" % (fmt, hx("k.slice"), hx(text)))
+            nmeta.append((fmt, text, k))
+    on = core.run_impl("emit", nlines, chunk=40, timeout=120)
+    ck.stream("notes-per-field", description="a compact struct with 1-4 float fields used as a dictionary key: the error carries one note per offending field (two float32 fields give two notes of the same text at different places), in JSON and in human format")
+    for (fmt, text, k), line, oo in zip(nmeta, nlines, on):
+        ck.count("notes-per-field", line, kind=fmt)
+        parts = oo.split(" || ")
+        if len(parts) != 3:
+            ck.violation("notes-per-field", "crash", text, "output", oo[:200])
+            continue
+        out = bytes.fromhex(parts[0]).decode("utf-8", "replace") if parts[0] != "-" else ""
+        if fmt == "json":
+            got = sum(len(json.loads(l).get("notes", [])) for l in out.split("\n") if l.startswith("{") and "E006" in l)
+        else:
+            got = out.count("note:")
+        if got != k:
+            ck.violation("notes-per-field", "note-missing", text, "%d notes, one per float field" % k, "%d in %s format" % (got, fmt), signature={"format": fmt})
     # what a generator says in its reply is printed on the standard output, one message per line in order, whatever its level; the diagnostic stream stays what the emitter writes
     gsample = [i for i in range(len(cases)) if len({nm for nm, _ in cases[i][2]}) == len(cases[i][2]) and len(o[i].split(" || ")) == 3 and o[i].split(" || ")[2].split(" ")[2] == "0" and not any("\x1b" in t for _, t in cases[i][2])][:(60 if ck.tier == "quick" else 600)]
     glines, gmeta = [], []
